@@ -8,8 +8,12 @@ import sysgen
 from c01 import record
 from common import ModelError, R, Rmat, flmat, max_rel_err
 
-LEAN_MODULES = ["PyomaVerif.Props.C03", "PyomaVerif.Props.C01"]
+from common import wiring_pre_build as pre_build  # noqa: E402,F401
+
+LEAN_MODULES = ["PyomaVerif.Props.C03", "PyomaVerif.Props.C01", "PyomaVerif.Props.WiringRun"]
 THEOREMS = [
+    # call-site wiring of the class layer, regenerated from /repo on every run (translate_wiring.py)
+    "PV.WiringRun.C03_run_multi",
     "PV.C03.C03_split",
     "PV.C03.C03_split_reject",
     "PV.C03.removeAll_spec",
